@@ -89,9 +89,9 @@ type srvHist struct {
 	insts []string
 	table map[int]string // the election's table as scripted: shard -> identity ("" = nobody)
 	// model of what happened, for non-vacuity counters and the regain check
-	epochDirty map[int]bool  // some allocate/acquire was served in the current leadership epoch of the shard
-	lostDirty  map[int]bool  // the last epoch that ended was dirty
-	window     map[int]bool  // table changed without callback and leaderCheck has not run yet
+	epochDirty map[int]bool // some allocate/acquire was served in the current leadership epoch of the shard
+	lostDirty  map[int]bool // the last epoch that ended was dirty
+	window     map[int]bool // table changed without callback and leaderCheck has not run yet
 	reqID      int64
 	trace      []string
 	nontrivial bool
@@ -304,7 +304,9 @@ func (h *srvHist) step() {
 		before := h.viewAll()
 		var err error
 		var res *proxyv1alpha1.RateLimitCondition
-		p := vkit.Safely(func() { res, err = h.srv.Limiter.UpdateRateLimitConditionStatus(u, newCondition(u, inst, int32(g.Intn(20)))) })
+		p := vkit.Safely(func() {
+			res, err = h.srv.Limiter.UpdateRateLimitConditionStatus(u, newCondition(u, inst, int32(g.Intn(20))))
+		})
 		h.logf("allocate upstream=%q(shard %d) instance=%s -> err=%v", u, shard, inst, err)
 		if leader != me {
 			h.judgeRefusal("allocate", shard, leader, err, p, true, before, h.viewAll())
